@@ -39,6 +39,31 @@ class SymStr:
         raise Unsupported(f"str.{name} on a symbolic str")
 
 
+class SymText(str):
+    """result of formatting a symbolic int with a numeric format spec: a real str (placeholder
+    text) that remembers the symbolic ASCII rendering, recovered by .encode()"""
+
+    def __new__(cls, elems):
+        o = str.__new__(cls, MARK)
+        o.elems = elems
+        return o
+
+    def encode(self, encoding="utf-8", errors="strict"):
+        return _out(self.elems)
+
+
+def fmt_symint(v, spec):
+    import re
+    m = re.fullmatch(r"(0?)(\d*)([xXdo]?)", spec or "")
+    if not m:
+        return MARK
+    zero, width, conv = m.groups()
+    try:
+        return SymText(_fmt_int(v, conv or "d", "0" if zero else "", int(width) if width else 0))
+    except Unsupported:
+        return MARK
+
+
 PROXY = (SymInt, SymBool, SymBytes, SymBytesIO, SymStr)
 
 
